@@ -246,6 +246,9 @@ def run(facts, res):
                         continue   # per-element type / syntax checks
                 if l.kind == "call" and callee_name(l.term) in ("is_none", "is_some") or (l.kind == "variant" and l.variants <= {"None", "Some"}):
                     extra.append(l)
+                elif l.kind == "call" and callee_name(l.term) in ("eq", "ne", "lt", "le", "gt", "ge", "contains", "starts_with", "ends_with", "is_empty") and \
+                        not any(x[0] == "call" and callee_name(x) == "len" for x in walk(l.term)):
+                    extra.append(l)     # a comparison between values of the record (`prev.digest() == digest`): the writer has no such restriction
             for l in extra:
                 # does the writer emit arity-k records only under a matching condition? (it conditions on the element's own
                 # parent, never on the block's parents)
